@@ -168,6 +168,32 @@ Fixpoint has_f (n : nat) : ty -> tv -> bool :=
   match n with O => fun _ _ => false | S n' => has_step (has_f n') (repr_f n') end.
 Definition has_type (t : ty) (v : tv) : bool := has_f (fuel_of t) t v.
 
+
+(* the value space without the two conditions that only concern representability (tuple: absent
+   fields form a suffix; stringjoin: field strings are free of the delimiter): what every accepted
+   tree must land in, at either level *)
+Section Shape.
+  Variable rec : ty -> tv -> bool.
+
+  Definition shape_step (t : ty) (v : tv) : bool :=
+    match t, v with
+    | TBool, VBool _ | TFloat, VFloat _ | TString, VString _ | TBytes, VBytes _ | TLink, VLink _ => true
+    | TInt W64, VInt z => in_int64 z
+    | TInt W8, VInt z => in_int8 z
+    | TAny, VAny d => negb (kind_eqb (kind_of d) KNull) && dm_wf d
+    | TList nul e, VList l => forallb (has_maybe rec false nul e) l
+    | TMap nul e, VMap m => nodupb (map fst m) && forallb (fun kv => has_maybe rec false nul e (snd kv)) m
+    | TStruct _ fs, VStruct vs => has_fields rec fs vs
+    | TUnion _ ms, VUnion i v =>
+        match nth_error ms i with Some m => rec (snd m) v | None => false end
+    | TEnum _ es, VEnum s => existsb (fun e => bytes_eqb (e_name e) s) es
+    | _, _ => false
+    end.
+End Shape.
+
+Definition shape_f : nat -> ty -> tv -> bool := fuel_rec shape_step (fun _ _ => false).
+Definition has_shape (t : ty) (v : tv) : bool := shape_f (fuel_of t) t v.
+
 (* ------------------------------------------------------------------ conformance *)
 Section Conf.
   Variable lvl : level.
